@@ -845,7 +845,9 @@ func nmove(wdt float64, subd int, zeit int, g *GlobalVarsMain, l *NitroSharedVar
 			g.C1[z] = 0
 		}
 	}
-	if subd == 1 && zeit >= g.SAAT[g.AKF.Index] && zeit <= g.ERNTE2[g.AKF.Index] {
+	// the day's fixation is credited only while the crop grows (the window in which PhytoOut sets SCHNORR):
+	// with automatic sowing the next crop has SAAT == 0 until it is sown
+	if subd == 1 && g.SAAT[g.AKF.Index] > 0 && zeit >= g.SAAT[g.AKF.Index] && zeit <= g.ERNTE2[g.AKF.Index] {
 		g.PESUM = g.PESUM + g.SCHNORR
 	}
 }
